@@ -26,10 +26,10 @@ static inline uint32_t vp_u32() { return (uint32_t)vp_nondet(); }
 static inline uint64_t vp_u64() { return vp_nondet(); }
 static inline bool     vp_bool(){ return (vp_nondet() & 1) != 0; }
 /* A global that the solver build leaves external (the engine zero-initialises it, no
- * constructor runs); the real-STL reference build defines the same symbol as zeroed
- * raw storage so both builds start from the identical state. */
+ * constructor runs); the real-STL reference build links the real, default-constructed
+ * object from uncrustify's own object file (empty containers, zero scalars: the same state). */
 #ifdef VP_REAL_STL
-#define VP_ZERO_GLOBAL(type, name) alignas(type) unsigned char vp_raw_ ## name[sizeof(type)] asm(#name)
+#define VP_ZERO_GLOBAL(type, name) extern type name   /* the real object (default-constructed) from the real object file */
 #else
 #define VP_ZERO_GLOBAL(type, name) extern type name
 #endif
@@ -39,5 +39,15 @@ static inline bool     vp_bool(){ return (vp_nondet() & 1) != 0; }
 /* per element-type capacity of the container models; specialise before including
  * uncrustify sources (ignored by the real-STL reference build) */
 template<class T> struct vp_cap { enum { value = VP_CAP_DEFAULT }; };
+/* byte and code-point sequences: set with -DVP_CAP_U8= / -DVP_CAP_INT= for ALL translation
+ * units of an instance (the capacity is part of the object layout) */
+#ifndef VP_CAP_U8
+#define VP_CAP_U8 16
+#endif
+#ifndef VP_CAP_INT
+#define VP_CAP_INT 8
+#endif
+template<> struct vp_cap<unsigned char> { enum { value = VP_CAP_U8 }; };
+template<> struct vp_cap<int> { enum { value = VP_CAP_INT }; };
 #endif
 #endif
